@@ -6,7 +6,9 @@ BOUNDS = {"quick": dict(k_full=3, k_core=5, k_bracket=4, random=20000, all_syn=F
 
 def run(res):
     b = BOUNDS[res.tier]
-    proof = proof_stage(res, "C04", extra_obligations=1)
+    t_ok, t_log = rs2v("quote_choice")        # Tie 1: the quote chooser is regenerated from general.rs
+    proof = proof_stage(res, "C04", extra_obligations=2) if t_ok else dict(ok=False, discharged=0, theorems=[], log=t_log, broken_at="rs2v: " + t_log.strip()[-300:])
+    if not t_ok: res.coverage.update(obligations=2, discharged=0, checker_cmd="rs2v /repo coq/gen", trusted_base=list(TRUSTED_BASE))
     build_harness(); build_ml()
     def cmds(i, n):
         h = [SVH, "c04", "--k-full", str(b["k_full"]), "--k-core", str(b["k_core"]), "--k-bracket", str(b["k_bracket"]),
@@ -27,7 +29,7 @@ def run(res):
         elif l.startswith("KNOWN") and len(known_lines) < 5: known_lines.append(l)
     tie_ok = not errs and not bads and tot["records"] > 0 and tot["records"] == stats["records"]
     if tie_ok and proof["ok"]:
-        res.coverage["discharged"] = proof["discharged"] + 1
+        res.coverage["discharged"] = proof["discharged"] + 2
     res.coverage.update(
         evaluations=tot["records"], distinct_nontrivial=tot["nontrivial"],
         rule="every string body over the 23-symbol alphabet up to length %d and over the 8-symbol core alphabet up to length %d, single- and double-quoted, "
